@@ -918,7 +918,11 @@ func packCase(sp *spec) {
 		if err2 != nil || !reflect.DeepEqual(d2, desc) {
 			fail("not-deterministic", "second call on the same target: %v %v, first %v", d2, err2, desc)
 		}
-		other, cleanup2 := newTarget(map[string]string{"memory": "oci", "oci": "memory", "file": "memory", "registry": "memory"}[sp.Target])
+		otherKind := "memory"
+		if sp.Target == "memory" && run.Evaluations%8 == 0 {
+			otherKind = "oci" // a disk-backed target now and then (temp directories are slow)
+		}
+		other, cleanup2 := newTarget(otherKind)
 		d3, err3 := callPack(sp, pusherOnly{&recorder{inner: other, failAt: -1}})
 		cleanup2()
 		if err3 != nil || !reflect.DeepEqual(d3, desc) {
